@@ -9,9 +9,10 @@ import time
 from typing import Any, Callable, Dict, List, Optional
 
 ROOT = os.path.dirname(os.path.dirname(os.path.abspath(__file__)))
-EVID = os.path.join(ROOT, "evidence")
-REPLAYS = os.path.join(ROOT, "replays")
+EVID = os.environ.get("VERIF_EVIDENCE_DIR") or os.path.join(ROOT, "evidence")
+REPLAYS = os.environ.get("VERIF_REPLAY_DIR") or os.path.join(ROOT, "replays")
 FINDINGS = os.path.join(ROOT, "known_findings.json")
+REPO = os.environ.get("VERIF_REPO", "/repo")
 
 
 def env_seed() -> int:
@@ -22,12 +23,18 @@ def env_seed() -> int:
 
 
 def load_findings() -> List[Dict[str, Any]]:
-    try:
-        with open(FINDINGS) as f:
-            data = json.load(f)
-    except FileNotFoundError:
-        return []
-    return [e for e in data.get("findings", []) if e.get("status") == "known"]
+    import glob
+    out: List[Dict[str, Any]] = []
+    # known_findings.json is the committed list; known_findings.d/*.json holds fragments of the
+    # same shape while a bundle is being integrated (also committed, never written at run time)
+    for path in [FINDINGS] + sorted(glob.glob(os.path.join(ROOT, "known_findings.d", "*.json"))):
+        try:
+            with open(path) as f:
+                data = json.load(f)
+        except FileNotFoundError:
+            continue
+        out += [e for e in data.get("findings", []) if e.get("status") == "known"]
+    return out
 
 
 def _match(entry: Dict[str, Any], rec: Dict[str, Any]) -> bool:
